@@ -1,7 +1,7 @@
 (* C10 - Dutch auctions settle completely and sell at the posted, falling price.
    Property theorems only; each is closed by [exact] of a lemma proved in Proofs/DutchProofs*.v. *)
 From Comdex Require Import Lib.Base Lib.DecArith Model.DutchV2 Proofs.DutchProofsPrice Proofs.DutchProofsBid
-  Proofs.DutchProofsClose.
+  Proofs.DutchProofsClose Proofs.DutchProofsConv.
 
 (* ------------------------------------------------------------------------------------------ *)
 (* Price clauses (generation 2).  [posted_price init disc dur t] is what UpdateDutchAuction writes
@@ -87,10 +87,9 @@ Print Assumptions c10_totals.
    bid - the conversion of the advertised bonus; a partial bid never gets a bonus share (the share
    is computed with integer Quo of bid/target, which is 0).  In the collateral-exhausted branch the
    bidder receives what is left and pays the truncated conversion of (left - bonus part) back into
-   debt units.  PARTIAL: the numeric rounding bound of [conv] against the exact rational
-   (received <= floor(exact) + 1 per conversion, paid >= floor(exact) - 1) is not proved here; it is
-   evaluated on every observed bid by the extracted [holds_C10_bid]. *)
-Theorem c10_bid_price_partial : forall cf lk a s who amt0 wd twa s' a' r,
+   debt units.  (The numeric bound of these conversions against the exact rational is
+   c10_conv_bounds / c10_bid_price below.) *)
+Theorem c10_bid_amounts : forall cf lk a s who amt0 wd twa s' a' r,
   good_cfg cf lk -> good_auction cf lk a -> 0 <= twa < 9223372036854775808 ->
   place_bid cf lk a s who amt0 wd twa = Ok (s', a', r) ->
   0 <= r_paid r <= a_debt a /\ 0 <= r_recv r <= a_coll a /\
@@ -109,7 +108,30 @@ Theorem c10_bid_price_partial : forall cf lk a s who amt0 wd twa s' a' r,
             r_bonus r = conv (c_dd cf) (dp_of lk twa) (a_bonus a) (c_dc cf) (a_price a)
   end.
 Proof. exact place_bid_amounts. Qed.
-Print Assumptions c10_bid_price_partial.
+Print Assumptions c10_bid_amounts.
+
+(* GetAmountOfOtherToken against the exact rational amt * r1 * d2 / (d1 * r2): two roundings to
+   10^-18 and one truncation.  With Decimals d2 <= 10^18 and a rate of at least 10^-18 uusd per
+   smallest unit of the target asset (d2 <= r2): at most one unit above, less than three below. *)
+Theorem c10_conv_bounds : forall d1 r1 a d2 r2,
+  0 < d1 -> 0 <= r1 -> 0 <= a -> 0 < d2 <= P18 -> d2 <= r2 ->
+  conv d1 r1 a d2 r2 * (d1 * r2) <= a * r1 * d2 + d1 * r2 /\
+  a * r1 * d2 < (conv d1 r1 a d2 r2 + 3) * (d1 * r2).
+Proof. intros. split; [apply conv_upper | apply conv_lower]; assumption. Qed.
+Print Assumptions c10_conv_bounds.
+
+(* the price clause of the property, as the extracted predicate the runner evaluates on every
+   observed bid: never more collateral than the amount paid (+ the advertised bonus on the closing
+   bid) buys at the posted price, up to one collateral unit per conversion (two on the closing bid:
+   debt and bonus are converted separately) and three debt units in the exhausted branch *)
+Theorem c10_bid_price : forall cf lk a s who amt0 wd twa s' a' r,
+  good_cfg cf lk -> good_auction cf lk a -> 0 <= twa < 9223372036854775808 ->
+  c_dc cf <= P18 -> c_dc cf <= a_price a -> c_dd cf <= P18 -> c_dd cf <= dp_of lk twa ->
+  place_bid cf lk a s who amt0 wd twa = Ok (s', a', r) ->
+  holds_C10_bid (c_dc cf) (c_dd cf) (a_price a) (dp_of lk twa) (a_coll a) (a_debt a) (a_bonus a)
+                (r_paid r) (r_recv r) (r_closed r) = true.
+Proof. exact bid_price_holds. Qed.
+Print Assumptions c10_bid_price.
 
 (* Close completeness, per initiator type (0 vault, 2 external, otherwise lend), for EVERY closing
    bid (no exception class any more: fixes/C10-F2 and fixes/C10-F3 repaired the two defects that
@@ -158,7 +180,7 @@ Proof. exact reserve_backed. Qed.
 Print Assumptions c10_reserve_backed.
 
 (* a partial bid moves only the bidder's and the auction account's balances, by the amounts of
-   the bid; with c10_bid_price_partial: the account keeps exactly the auction's remaining collateral
+   the bid; with c10_bid_amounts: the account keeps exactly the auction's remaining collateral
    and the debt collected so far *)
 Theorem c10_partial_bid_ledger : forall cf lk a s who amt0 wd twa s' b r,
   good_cfg cf lk -> good_auction cf lk a -> 0 <= twa < 9223372036854775808 ->
